@@ -19,7 +19,7 @@ use biodivine_lib_param_bn::symbolic_async_graph::{GraphColoredVertices, Symboli
 use std::collections::HashMap;
 use std::time::Instant;
 
-const QUICK_MODELS: [&str; 5] = ["myeloid", "110_9v_parametrized", "110_9v_concrete", "model-010-13var-2in", "tacas2"];
+const QUICK_MODELS: [&str; 7] = ["myeloid", "110_9v_parametrized", "110_9v_concrete", "model-010-13var-2in", "tacas2", "cell_division_65536c", "synthetic_62bits"];
 
 fn plan(tier: Tier) -> (u64, Vec<&'static str>, u64) {
     // (small-network cases, models, set pairs per model)
